@@ -27,20 +27,23 @@ type Var struct {
 	Module   bool   // declared at module scope
 	Alias    *Var   // read-only alias of another variable (same name): evaluators follow it
 	UID      int
+	// error-injection switches (printer only)
+	DropGroup, DropBinding bool
 }
 
 func (v *Var) IsRefVar() bool { return v.Kind == VGlobal || v.Kind == VLocal }
 
 type Func struct {
-	Name    string
-	Params  []*Var
-	Ret     *Type
-	Body    []Stmt
-	Stage   string // "" | "compute" | "vertex" | "fragment"
-	WG      [3]Expr
-	WGDims  int // how many workgroup_size arguments are printed (1..3)
-	MustUse bool
-	UID     int
+	Name     string
+	Params   []*Var
+	Ret      *Type
+	Body     []Stmt
+	Stage    string // "" | "compute" | "vertex" | "fragment"
+	WG       [3]Expr
+	WGDims   int // how many workgroup_size arguments are printed (1..3)
+	MustUse  bool
+	UID      int
+	NoWGSize bool // error injection: omit @workgroup_size
 }
 
 // ---------- expressions ----------
@@ -91,12 +94,14 @@ type Field struct {
 	X   Expr
 	Idx int
 	Ty  *Type
+	Raw string // error injection: print this member name instead
 }
 type Swiz struct {
 	X     Expr
 	Comps []int
 	RGBA  bool
 	Ty    *Type
+	Raw   string // error injection: print this component string instead
 }
 type AddrOf struct {
 	X  Expr
@@ -107,6 +112,15 @@ type Deref struct {
 	Ty *Type
 }
 type Paren struct{ X Expr }
+
+// RawExpr prints Text verbatim as one token (used by error injections); its static type is Ty.
+type RawExpr struct {
+	Text string
+	Ty   *Type
+}
+
+// RawStmt prints Text verbatim followed by nothing (used by error injections).
+type RawStmt struct{ Text string }
 
 func (e *Lit) T() *Type         { return e.Ty }
 func (e *Ref) T() *Type         { return e.V.Ty }
@@ -122,6 +136,7 @@ func (e *Swiz) T() *Type        { return e.Ty }
 func (e *AddrOf) T() *Type      { return e.Ty }
 func (e *Deref) T() *Type       { return e.Ty }
 func (e *Paren) T() *Type       { return e.X.T() }
+func (e *RawExpr) T() *Type     { return e.Ty }
 
 // ---------- statements ----------
 
@@ -195,6 +210,7 @@ func (*CallS) stmt()       {}
 func (*BuiltinS) stmt()    {}
 func (*Block) stmt()       {}
 func (*ConstAssert) stmt() {}
+func (*RawStmt) stmt()     {}
 
 // ---------- module ----------
 
@@ -204,6 +220,7 @@ type Decl struct { // one module-scope declaration, in print order
 	Func   *Func
 	Alias  *Alias
 	Assert *ConstAssert
+	Raw    string // error injection: printed verbatim
 }
 
 type Alias struct {
